@@ -206,11 +206,15 @@ func (f *Fam) execWire(op string, w []string, fail func(string, string, string))
 			}
 			what = "fee"
 		case 3:
-			for {
+			// another message of the same type: different content means a different encoding (two values that merely
+			// differ in memory - a zero amount with or without digits allocated - are the same content)
+			same := true
+			for i := 0; i < 20 && same; i++ {
 				alt.Msg = rndMsg(r, w[1])
-				if !reflect.DeepEqual(alt.Msg, tx.Msg) {
-					break
-				}
+				same = bytes.Equal(cdc.MustMarshalBinaryBare(alt.Msg), cdc.MustMarshalBinaryBare(tx.Msg))
+			}
+			if same {
+				return "done"
 			}
 			what = "message"
 		default:
